@@ -134,17 +134,25 @@ theorem cos_closed_form (N n a : ℝ) : Gen.Windows.cos N n a = Real.sin (Real.p
 
 /-- relations between the families (sanity of the closed forms) -/
 theorem hann_eq_blackman_zero (N n : ℝ) : hann N n = blackman N n 0 := by
-  simp [hann, blackman]; ring
+  have e1 := genFormula_eq_sample .hann 0 N n
+  have e2 := genFormula_eq_sample .blackman 0 N n
+  simp only [genFormula] at e1 e2
+  rw [e1, e2]
+  simp [sample]
 
 /-- hann is the squared cosine-family window (`cos` with alpha = 2) -/
 theorem hann_eq_cos_two (N n : ℝ) : hann N n = Gen.Windows.cos N n 2 := by
-  have h := Real.cos_sq' (Real.pi * n / N)
+  have e1 := genFormula_eq_sample .hann 0 N n
+  have e2 := genFormula_eq_sample .cos 2 N n
+  simp only [genFormula] at e1 e2
+  rw [e1, e2]
   have h2 : Real.cos (2 * Real.pi * n / N) = 2 * Real.cos (Real.pi * n / N) ^ 2 - 1 := by
     rw [← Real.cos_two_mul]; congr 1; ring
-  simp only [hann, Gen.Windows.cos, TrigField.real_ofInt, TrigField.real_ofRat, TrigField.real_pi, TrigField.real_cos,
+  simp only [sample, TrigField.real_ofInt, TrigField.real_ofRat, TrigField.real_pi, TrigField.real_cos,
     TrigField.real_sin, TrigField.real_pow, Int.cast_ofNat, Int.cast_one, Nat.cast_ofNat]
   rw [h2, Real.rpow_two]
   nlinarith [Real.sin_sq_add_cos_sq (Real.pi * n / N)]
+
 /-- **model = spec**: for every dictionary, every documented name (the two aliases `wsymm` lacks
     excepted), every size and every parameter, the call through the modelled registry, generated
     template and generated formula returns exactly the specified list. -/
